@@ -3,7 +3,7 @@ import math
 
 from .common import Failure, f2h, h2f, parse_reply, vec
 from . import c01 as H
-from .c01 import (Dy, dy, blocks, finite, inf_norm, isqrt_exact, bareiss_det, exact_residual, exact_matmul_resid,
+from .c01 import (exact_chol_verdict, Dy, dy, blocks, finite, inf_norm, isqrt_exact, bareiss_det, exact_residual, exact_matmul_resid,
                   EPS, col)
 
 ID = "C11"
@@ -15,7 +15,7 @@ REQUIRED_THEOREMS = [
     "Cv.C11.matrix_cholesky_eq_slice", "Cv.C11.matrix_forward_eq_slice", "Cv.C11.matrix_backward_eq_slice", "Cv.C11.cholesky_rejects_indefinite_witness",
 ]
 RULE = ("orders 1..32 x {SPD to cond 1e8, symmetric indefinite with positive diagonal (float and integer), dense, "
-        "adversarial pivot columns, sparse SPD (arrowhead, banded, block), integer, singular, rank-deficient, zero leading pivot, permutation matrices, triangular} x "
+        "adversarial pivot columns, extreme power-of-two scale with scaling-invariance pairs, singular PSD B*B^T, sparse SPD (arrowhead, banded, block), integer, singular, rank-deficient, zero leading pivot, permutation matrices, triangular} x "
         "{lu, cholesky, det, lu_det, triangular solves, cholesky_solve, lu_solve} in slice and Matrix form, "
         "plus permutation vectors up to length 40 for ipiv_parity; non-trivial = distinct (op, class, order)")
 EXHAUSTIVE = {"quick": False, "thorough": False}
@@ -94,11 +94,11 @@ def g_upper(rng, n):
 
 LU_CLASSES = {
     "dense": H.g_dense, "int": H.g_int, "singular": g_singular, "rankdef": g_rankdef, "zerolead": g_zerolead,
-    "advpivot": H.g_advpivot, "perm": g_perm, "tri": H.g_tri, "tinypivot": H.g_tinypivot, "graded": H.g_graded, "diagdom": H.g_diagdom,
+    "advpivot": H.g_advpivot, "extreme": H.g_extreme, "perm": g_perm, "tri": H.g_tri, "tinypivot": H.g_tinypivot, "graded": H.g_graded, "diagdom": H.g_diagdom,
     "spd": H.g_spd,
 }
 CHOL_CLASSES = {
-    "arrow_spd": H.g_arrow_spd, "band_spd": H.g_band_spd, "block_spd": H.g_block_spd,
+    "psd_singular": H.g_psd_singular, "arrow_spd": H.g_arrow_spd, "band_spd": H.g_band_spd, "block_spd": H.g_block_spd,
     "spd": H.g_spd, "graded_spd": lambda r, n: H.g_graded(r, n, 8, True), "diagdom_sym": lambda r, n: H.g_diagdom(r, n, True),
     "symindef": H.g_symindef, "symindef_int": H.g_symindef_int, "dense": H.g_dense,
     "spd_int": lambda r, n: spd_int(r, n),
@@ -133,7 +133,7 @@ def gen(rng, tier):
         if it < 64:
             n = 1 + it % 32
         cls = lu_names[it % len(lu_names)]
-        na = rng.randint(3, 16) if cls == "advpivot" else n
+        na = rng.randint(3, 16) if cls == "advpivot" else (rng.randint(2, 12) if cls == "extreme" else n)
         A = LU_CLASSES[cls](rng, na)
         n0, n = n, na
         cnt("lu:" + cls)
@@ -200,6 +200,16 @@ def gen(rng, tier):
             else:
                 q[rng.randint(0, m - 1)] = -1 - rng.randint(0, 3)        # negative
             lines.append("parity %d %s" % (m, " ".join(map(str, q))))
+    # exact power-of-two scaling: the factorisation of A * 2^k is the factorisation of A, scaled
+    for it in range(N // 4):
+        nn = rng.randint(2, 12)
+        base = H.g_extreme_base(rng, nn)
+        nn = H.isqrt_exact(len(base))
+        k = rng.choice(H.SCALE_EXPS)
+        cnt("scale:%d" % k)
+        lines.append("lu_pair %s %s" % (vec(base), vec([math.ldexp(v, k) for v in base])))
+    for a in ([4.0, 2.0, 2.0, 1.0], [1.0, 1.0, 1.0, 1.0], [0.0]):   # C11e witnesses: exactly zero last pivot
+        lines.append("both_chol " + vec(a))
     z = f2h(0.0)
     for l in ["lu 0", "chol 0", "lu 2 %s %s" % (z, z), "chol 3 %s %s %s" % (z, z, z), "mlu 2 3 6 " + " ".join([z] * 6),
               "mchol 0 0 0", "mlu 0 0 0", "mdet 0 0 0", "fwd 0 0", "bwd 0 0", "chol_solve 0 0",
@@ -284,7 +294,7 @@ def check_lu(fails, i, key, A, n, f_t, p_t):
     if len(f) != n * n or not is_perm(piv):
         fails.append(Failure(i, key, "lu: pivot vector %r is not a permutation of 0..%d" % (piv[:12], n - 1)))
         return
-    if not finite(A) or max((abs(v) for v in A), default=0) > 1e100:
+    if not finite(A) or max((abs(v) for v in A), default=0) > 2.0 ** 1000:
         return
     if not finite(f):
         fails.append(Failure(i, key, "lu: non-finite factor for finite input (order %d)" % n))
@@ -385,6 +395,49 @@ def oracle(lines, impl):
             else:
                 bl = blocks(toks[2:])
                 check_lu(fails, i, key, A, n, bl[0], bl[1])
+        elif op == "lu_pair":
+            A, p = rvec(t, 1)
+            B, _ = rvec(t, p)
+            n = isqrt_exact(len(A))
+            if n is None or len(B) != len(A) or st != "ok":
+                continue
+            key = "lu_pair:n=%d" % n
+            bl = blocks(toks)
+            if len(bl) != 8 or any(b is None for b in bl):
+                fails.append(Failure(i, key, "lu panicked on a square matrix of order %d" % n))
+                continue
+            for (mat, o, tag) in ((A, 0, "unscaled"), (B, 4, "scaled")):
+                if bl[o] != bl[o + 2] or bl[o + 1] != bl[o + 3]:
+                    fails.append(Failure(i, key, "slice lu and Matrix::lu return different factors or pivots on the %s matrix (order %d)" % (tag, n)))
+                    check_lu(fails, i, key, mat, n, bl[o + 2], bl[o + 3])
+                check_lu(fails, i, key, mat, n, bl[o], bl[o + 1])
+            nz = [(a, b) for a, b in zip(A, B) if a != 0]
+            if not nz or any((a == 0) != (b == 0) for a, b in zip(A, B)):
+                continue
+            k = math.frexp(nz[0][1])[1] - math.frexp(nz[0][0])[1]
+            if any(math.ldexp(a, k) != b for a, b in zip(A, B)):
+                continue
+            for o, tag in ((0, "slice lu"), (2, "Matrix::lu")):
+                f0 = [h2f(x) for x in bl[o]]
+                f1 = [h2f(x) for x in bl[4 + o]]
+                # every non-zero value of both factorisations and every |l||u| product must be comfortably normal
+                vals = [abs(v) for v in f0 + f1 if v != 0]
+                lo = min(vals, default=1.0)
+                lmin = min((abs(f0[r * n + c]) for r in range(n) for c in range(r) if f0[r * n + c] != 0), default=1.0)
+                if lo * min(lmin, 1.0) < 2.0 ** -960 or max(vals, default=1.0) > 2.0 ** 1000:
+                    continue
+                if bl[o + 1] != bl[4 + o + 1]:
+                    fails.append(Failure(i, key, "%s: pivots change under exact scaling by 2^%d: %s vs %s (order %d)" % (tag, k, bl[o + 1][:8], bl[4 + o + 1][:8], n)))
+                    continue
+                for r in range(n):
+                    for c in range(n):
+                        e = f0[r * n + c] if c < r else math.ldexp(f0[r * n + c], k)
+                        if f1[r * n + c] != e:
+                            fails.append(Failure(i, key, "%s: entry (%d,%d) of the factor of A*2^%d is %r, expected %r (order %d)" % (tag, r, c, k, f1[r * n + c], e, n)))
+                            break
+                    else:
+                        continue
+                    break
         elif op in ("both_chol", "chol", "mchol"):
             A, _ = rvec(t, 1 if op != "mchol" else 3)
             n = isqrt_exact(len(A))
@@ -408,8 +461,15 @@ def oracle(lines, impl):
                 results = [("cholesky", toks[1:] if st == "ok" else None)]
             else:
                 results = [("Matrix::cholesky", toks[3:] if st == "ok" else None)]
+            verdict = exact_chol_verdict(A, n) if n else None
             for what, r in results:
-                if r is not None and not finite([h2f(v) for v in r]) and finite(A):
+                if r is not None and finite(A) and len(r) == n * n and any(not (h2f(r[d * n + d]) > 0) for d in range(n)):
+                    fails.append(Failure(i, key, "%s returned a factor whose diagonal is not positive (order %d)" % (what, n)))
+                elif verdict == "reject" and r is not None:
+                    fails.append(Failure(i, key, "%s accepted a matrix that is not positive definite: the (exactly representable) sweep meets a pivot <= 0 (order %d)" % (what, n)))
+                elif verdict == "accept" and r is None and what == "cholesky":
+                    fails.append(Failure(i, key, "%s rejected a matrix whose exact sweep has only positive pivots (order %d)" % (what, n)))
+                elif r is not None and not finite([h2f(v) for v in r]) and finite(A):
                     fails.append(Failure(i, key, "%s returned a non-finite factor instead of rejecting the input (order %d)" % (what, n)))
                 elif cls == "spd":
                     if r is None:
